@@ -13,9 +13,10 @@ import (
 	"time"
 
 	"github.com/saucelabs/forwarder/verifharness/core"
+	"github.com/saucelabs/forwarder/verifharness/srcgen"
 )
 
-func init() { core.Register("C12", core.Scenario{Run: Run, Replay: Replay}) }
+func init() { core.Register("C12", core.Scenario{Run: Run, Replay: Replay, Prepare: srcgen.PrepareC12}) }
 
 const childEnv = "VERIF_CHILD"
 
